@@ -145,9 +145,9 @@ void djb_apply_mzd(djb_t *m, mzd_t *W, const mzd_t *V) {
   while (i > 0) {
     --i;
     if (m->srctyp[i] == source_source) {
-      _mzd_combine(mzd_row(W, m->target[i]), mzd_row_const(V, m->source[i]), W->width);
+      mzd_combine_even_in_place(W, m->target[i], 0, V, m->source[i], 0);
     } else {
-      _mzd_combine(mzd_row(W, m->target[i]), mzd_row_const(W, m->source[i]), W->width);
+      mzd_combine_even_in_place(W, m->target[i], 0, W, m->source[i], 0);
     }
   }
 }
